@@ -160,7 +160,18 @@ def program(spec: EnumSpec, pname, tier, cap, ladder=False):
         hs.append(Harness(name="h_from_str_witness_%d" % (ci // 4), body="\n".join(wb), unwind=20, kind="witness",
                           desc="fixed inputs derived from the spellings (case flips, identifiers, outer whitespace, one-char edits, look-alikes): %s" % ", ".join(repr(w) for w in chunk),
                           bound={"inputs": chunk}, functions=fns))
+    hs.append(Harness(name="h_e2_replay", native_only=True, desc="replay vehicle for E2 models: any valid UTF-8 input up to 64 bytes",
+                      body="    let ss = SymStr::<64>::utf8();\n    let r = <%s as core::str::FromStr>::from_str(ss.as_str());\n    check_parse(&r, oracle(ss.bytes()), ss.bytes());" % spec.ty()))
     return Program(name=pname, enum_src=src, helper_src=helper, harnesses=hs, summary=render_enum(spec), role=spec.role, note=spec.note)
+
+
+specs_cache = {}
+
+
+def e2(run, programs, tier, seed, known):
+    import e2str
+    specs = [s for s in specs_cache.get((tier, seed), []) if not s.generics]      # generic / lifetime enums: E1 only
+    return e2str.run_e2(run, programs, specs, HELPERS, ["dw_seven", "dw_word", "dw_flag"], lambda sp: None, known)
 
 
 def build(tier, seed):
@@ -168,10 +179,11 @@ def build(tier, seed):
     cap = 12 if tier == "quick" else 16
     specs = pivot() + random_specs(rng, 2 if tier == "quick" else 14)
     programs = [program(s, "p%03d" % i, tier, cap) for i, s in enumerate(specs)]
+    specs_cache[(tier, seed)] = specs
     return {
         "programs": programs,
         "harness_timeout": 600 if tier == "quick" else 2400,
-        "bounds": {"N": "longest spelling + 1 bytes per program, capped at %d; full UTF-8" % cap,
+        "bounds": {"N": "E1: longest spelling + 1 bytes per program, capped at %d; full UTF-8.  E2: input of ANY length (SMT strings) for the variant identity" % cap,
                    "payload types": "u8/u16/bool/String/&str/Box<str>"},
         "assumptions": [
             "program dimension enumerated (pivot + seeded random corpus with non-overlapping spellings)",
